@@ -22,6 +22,8 @@ returns or raises.
 * `monkey_restores_refuted`     the statement without `entryOk` is FALSE: an exception in the
       entry loop leaves the earlier sites patched and `_PATCH_STATE` non-empty (replayed on the
       real code: @onnx_function on a function that is not a module attribute)
+* `inherited_ownCopy_partial`   the benign case outside `good` (flax.linen Conv/ConvLocal): an
+      inherited attribute whose provider is not patched ends as an own copy, `getattr` unchanged
 * `x64_restored`                `to_onnx` leaves the global x64 flag as found (model of
       `_temporary_x64` / `_force_jax_x64` shared with C18)
 -/
@@ -202,6 +204,49 @@ example : (run H2 reg4 busy st4).good = true ∧ (run H2 reg4 busy st4).entryOk 
     (run H2 reg4 busy st4).raised = true ∧
     (run H2 reg4 busy st4).st.own 2 1 = some (.tok 9) ∧ (run H2 reg4 busy st4).st.own 2 5 = none ∧
     (run H2 reg4 busy st4).st.ps 0 0 = none := by decide
+
+/-! ### the benign case outside `good`: an inherited attribute whose provider is not patched -/
+
+/-- **Own copy, same resolution (partial).** `apply_patches` on a key that the target only
+    inherits (flax.linen `Conv.__call__`, `ConvLocal.__call__` from `_Conv`), around any body that
+    restores the own table (in particular: the provider is not left patched), leaves exactly one
+    difference — the target now OWNS a copy of the inherited value — and, in a hierarchy without
+    diamonds, `getattr` resolves every (target, attribute) as before.  This is weaker than
+    own-table identity (`vars(cls)` differs) and the statement says so. -/
+theorem inherited_ownCopy_partial (H : Hier) (hH : H.SelfFirst) (hL : H.Linear) (reg : List Site)
+    (s : Spec) (body : Prog) (st : St) (v : Val)
+    (hnone : st.own s.tgt s.attr = none) (hv : firstOwn st.own s.attr (H.mro s.tgt) = some v)
+    (hplain : descGet H s.tgt v = v) (hf : s.faults = false)
+    (hbody : ∀ st', (run H reg body st').st.own = st'.own) :
+    (run H reg (.patches [s] body) st).st.own = setOwn st.own s.tgt s.attr (some v) ∧
+    ∀ t a, lookup H (run H reg (.patches [s] body) st).st.own t a = lookup H st.own t a := by
+  have hlk : lookup H st.own s.tgt s.attr = some v := by
+    unfold lookup; rw [hv]; simp [hplain]
+  have hown : (run H reg (.patches [s] body) st).st.own = setOwn st.own s.tgt s.attr (some v) := by
+    simp only [run, enter, hf, Bool.false_eq_true, if_false, hbody, unwind, hlk, setOwn_setOwn]
+  refine ⟨hown, ?_⟩
+  intro t a
+  rw [hown]
+  exact ownCopy_invisible H hH hL st.own s.tgt s.attr v hnone hv t a
+
+theorem H2_linear : H2.Linear := by
+  intro s t h
+  by_cases hs : s = 1
+  · subst hs
+    simp [H2] at h
+    rcases h with rfl | rfl
+    · exact ⟨[], by simp [H2], by simp⟩
+    · exact ⟨[1], by simp [H2], by simp⟩
+  · simp [H2, hs] at h
+    subst h
+    exact ⟨[], by simp [H2, hs], by simp⟩
+
+-- non-vacuity: the subclass alone is patched (its base is not): it ends with an own copy of the
+-- inherited value and resolves as before
+example : (run H2 [] (.patches [⟨1, 0, .monkey 2, .none⟩] .raise) st2).st.own 1 0 = some (.tok 7) ∧
+    lookup H2 (run H2 [] (.patches [⟨1, 0, .monkey 2, .none⟩] .raise) st2).st.own 1 0
+      = lookup H2 st2.own 1 0 ∧
+    (run H2 [] (.patches [⟨1, 0, .monkey 2, .none⟩] .raise) st2).good = false := by decide
 
 /-! ### the x64 flag -/
 
